@@ -23,7 +23,7 @@
 (* per action_<state>; subaction_detect_taggable_statement is shared as in *)
 (* the code.  Every dereference the code performs on something that may be *)
 (* None/empty is guarded and goes to res.k = "crash" (kind = the Python    *)
-(* exception type).  res.k = "err" is ParserError at line res.n.           *)
+(* exception type; site = the dereference).  res.k = "err" is ParserError at line res.n.           *)
 (* Pure definitions only: GherkinParser_MC / GherkinDoc_MC build state     *)
 (* spaces from them, the *_Trace modules judge recorded rows with them.    *)
 (***************************************************************************)
@@ -181,8 +181,8 @@ CloseTable(ps) ==
                    !.hasTable = FALSE, !.trows = <<>>, !.state = "steps"]
 
 TableRow(ps, ln) ==
-   IF ln.a = "open" /\ ps.feature = 0 THEN Crash(ps, "AttributeError", "feature.filename")   \* self.feature.filename in the warning
-   ELSE IF ~ps.hasTable THEN [ps EXCEPT !.hasTable = TRUE, !.trows = <<[l |-> ps.line, cells |-> ln.ps]>>, !.state = "table"]
+   \* (a row without closing pipe, ln.a = "open", only logs a warning with self.filename)
+   IF ~ps.hasTable THEN [ps EXCEPT !.hasTable = TRUE, !.trows = <<[l |-> ps.line, cells |-> ln.ps]>>, !.state = "table"]
    ELSE IF Len(ln.ps) # Len(ps.trows[1].cells) THEN PErr(ps, "Malformed table")
    ELSE [ps EXCEPT !.trows = Append(@, [l |-> ps.line, cells |-> ln.ps]), !.state = "table"]
 
@@ -240,7 +240,7 @@ Feed(ps0, ln) ==
         ELSE IF ln.c \in {"#", "Lang"} THEN
              IF ps.state # "initial" \/ ps.tags # <<>> \/ ps.variant # "feature" THEN ps
              ELSE IF ln.c = "#" THEN ps
-             ELSE IF ln.a = "unknown" THEN Crash(ps, "KeyError", "languages[x]")   \* i18n.languages[language]
+             ELSE IF ln.a = "unknown" THEN PErr(ps, "Unknown language")                  \* language not in i18n.languages
              ELSE [ps EXCEPT !.lang = ln.lg]
         ELSE Act(ps, ln, Eff(ps, ln))
 
@@ -250,24 +250,19 @@ AtEof(ps) == IF ps.res.k = "live" /\ ps.hasTable THEN CloseTable(ps) ELSE ps
 RECURSIVE FeedAll(_,_,_)
 FeedAll(ps, lines, i) == IF i > Len(lines) THEN ps ELSE FeedAll(Feed(ps, lines[i]), lines, i + 1)
 
-\* ---------------------------------------------------------------- parse_tags(text): the whole text is ONE line for
-\* Parser.parse_tags: split() on any whitespace, `break` at the first word starting with '#', self.line = 0
-RECURSIVE TagWords(_,_,_)
-TagWords(ps, lines, i) ==
-   IF i > Len(lines) THEN ps
-   ELSE LET ln == lines[i] IN
-        CASE ln.c = "_" -> TagWords(ps, lines, i + 1)
-          [] ln.c \in {"#", "Lang"} -> ps                                               \* break: the rest is skipped
-          [] ln.c = "Tags" -> LET nx == [ps EXCEPT !.tags = @ \o TagSeq(ln.ps, 0)] IN
-                              IF ln.a = "bad" THEN PErr(nx, "bad tag")
-                              ELSE IF ln.a = "cmt" THEN nx
-                              ELSE TagWords(nx, lines, i + 1)
+\* ---------------------------------------------------------------- parse_tags(text): line by line; blank lines and
+\* comment lines are skipped, parser.line = 1-based line number, a '#' word ends its own line only, a word without
+\* '@' is a bad tag (ParserError at that line)
+FeedTag(ps0, ln) ==
+   IF ps0.res.k # "live" THEN ps0
+   ELSE LET ps == [ps0 EXCEPT !.line = @ + 1] IN
+        CASE ln.c \in {"_", "#", "Lang"} -> ps
+          [] ln.c = "Tags" -> LET nx == [ps EXCEPT !.tags = @ \o TagSeq(ln.ps, ps.line)] IN
+                              IF ln.a = "bad" THEN PErr(nx, "bad tag") ELSE nx
           [] OTHER -> PErr(ps, "bad tag")
-RunTags(lines) ==
-   LET ps == Init0("tags") IN
-   IF lines = <<>> \/ (Len(lines) = 1 /\ lines[1].c = "_" ) THEN ps                     \* `if not text: return []`
-   ELSE IF lines[1].c # "Tags" \/ lines[1].ind # 0 THEN Crash(ps, "AssertionError", "assert")   \* assert line.startswith("@")
-   ELSE TagWords(ps, lines, 1)
+RECURSIVE FeedTags(_,_,_)
+FeedTags(ps, lines, i) == IF i > Len(lines) THEN ps ELSE FeedTags(FeedTag(ps, lines[i]), lines, i + 1)
+RunTags(lines) == FeedTags(Init0("tags"), lines, 1)
 
 \* ---------------------------------------------------------------- whole runs
 Run(entry, lines) == IF entry = "tags" THEN RunTags(lines) ELSE AtEof(FeedAll(InitOf(entry), lines, 1))
